@@ -22,7 +22,9 @@ def run(tier, lab):
     if rd.violated != "ProcessSurvives":
         raise lib.Infra("deviation unrecovered_panic does not violate ProcessSurvives in the model")
     scs = life.build(ck, tier, lib.seed())
-    deaths, reports = life.explore(lab, scs, "c01", settle_ms=1500, idle_ms=0)
+    # the run goes on until the server's own timers (30 s: idle timeout, passive-mode accept) have run out: what a client
+    # sent may end the process later than it left
+    deaths, reports = life.explore(lab, scs, "c01", settle_ms=1500, idle_ms=32000)
     for sc, banner, site in deaths:
         svc = sc["svc"]
         ck.disagree("%s/process-died/%s" % (svc, site), "%s killed the process: %s" % (describe(sc), banner), {"scenario": sc})
@@ -30,8 +32,9 @@ def run(tier, lab):
     if rep is None and not deaths:
         raise lib.Infra("no report from the life child")
     if rep is not None:
-        if not rep["probe_ok"]:
-            ck.disagree("server/stopped-serving", "after the exploration a fresh echo connection is no longer served", {"scenarios": len(scs)})
+        if not rep["probe_ok"] or not rep.get("probe_after_idle_ok", True):
+            ck.disagree("server/stopped-serving", "after the exploration a fresh echo connection is no longer served (%s)" % (
+                "at once" if not rep["probe_ok"] else "32 s later"), {"scenarios": len(scs)})
         growth = rep["idle2"]["heap_in_use"] - rep["idle1"]["heap_in_use"]
         if growth > 16 << 20:
             ck.disagree("server/memory-grows-while-idle", "heap in use grew by %d bytes within 1 s without any client input" % growth,
